@@ -60,7 +60,9 @@ typedef struct tpt_msg_pkt_s { /* thread message packet data. */
 } tpt_msg_pkt_t, *tpt_msg_pkt_p;
 
 #define TPT_MSG_PKT_MAGIC	0xffddaa00
+#if !defined(LIBLCB_VERIF) || !defined(TPT_MSG_COUNT_TO_READ) /* Verification builds may preset a smaller batch. */
 #define TPT_MSG_COUNT_TO_READ	1024 /* Read messages count at one read() call. */
+#endif
 
 #define TPT_MSG_PKT_CHK_SUM_SET(__msg_pkt)				\
     (__msg_pkt)->chk_sum = (((size_t)(__msg_pkt)->msg_cb) ^ ((size_t)(__msg_pkt)->udata))
